@@ -259,9 +259,11 @@ def run_impl(case):
             Lc = _lattice(~K, malgo)
             M = _lattice(K, malgo, is_monotone=True)
             _warm(M, case, allow_readd=False)   # the model compares M position by position
-            le = [[_try(lambda a=a, b=b: bool(a <= b))[:2] for b in M] for a in M]
             lf = bool(case.get('leq_first'))
-            return {'Lc': _lat_d(Lc, lf), 'M': _lat_d(M, lf), 'le': le, 'hash': int(K.hash_fixed())}
+            MT = M.T                            # transposition of a monotone lattice, taken before M is observed
+            dMT = _lat_d(MT, lf)
+            le = [[_try(lambda a=a, b=b: bool(a <= b))[:2] for b in M] for a in M]
+            return {'Lc': _lat_d(Lc, lf), 'M': _lat_d(M, lf), 'le': le, 'hash': int(K.hash_fixed()), 'MT': dMT}
         raise ValueError('unknown kind ' + kind)
     r = guarded(go, timeout_s=20)
     return list(r)
@@ -369,7 +371,7 @@ def to_coq(case, out):
                                                           coq(v['e3']), coq(v['i3']))
             elif kind == 'mono':
                 le = '[' + '; '.join('[' + '; '.join(_ires_bool(x) for x in row) + ']' for row in v['le']) + ']'
-                o = '(IOk (%s, %s, %s))' % (_lat_term(d, v['Lc']), _lat_term(d, v['M']), le)
+                o = '(IOk (%s, %s, %s, %s))' % (_lat_term(d, v['Lc']), _lat_term(d, v['M']), le, _lat_term(d, v['MT']))
     except _Bad:
         o = '(IErr 12)'     # output of an impossible shape
     strs = d.term()
@@ -549,6 +551,12 @@ def random_bases(rng, n):
     out.append(p)
     if rng.random() < 0.5:
         out.append(list(reversed(range(n))))
+    # a base listing that repeats indexes: the answer is the filter of the listing, repeats kept
+    q = rng.sample(range(n), rng.randint(1, n))
+    q = q + [rng.choice(q) for _ in range(rng.randint(1, 3))]
+    if rng.random() < 0.5:
+        rng.shuffle(q)
+    out.append(q)
     return out
 
 
@@ -578,8 +586,8 @@ def exhaustive_cases():
         for be in BACKENDS:
             yield _mk('trans', be, t, on, an, tkind='exhaustive')
             yield _mk('primes', be, t, on, an, tkind='exhaustive',
-                      basesA=[list(reversed(range(w))), list(range(0, w, 2))],
-                      basesO=[list(reversed(range(h))), list(range(h - 1, h))],
+                      basesA=[list(reversed(range(w))), list(range(0, w, 2)), [w - 1, w - 1, 0]],
+                      basesO=[list(reversed(range(h))), list(range(h - 1, h)), [0, 0]],
                       repsO=[[0] * h, [h - 1] + [0] * (h - 1)], repsA=[[0] * w, [w - 1] + [0] * (w - 1)])
             yield _mk('compl', be, t, on, an_not, tkind='exhaustive')
             for algo in ('CbO', 'Lindig'):      # algo=None is Lindig for a FormalContext
